@@ -26,7 +26,8 @@ def harness_sources():
 def tree_hash(variant):
     h = hashlib.sha256()
     files = engine_sources() + [os.path.join(REPO, "engine", "main.cpp")] + sorted(glob.glob(os.path.join(REPO, "engine", "*.h"))) + harness_sources() \
-        + sorted(glob.glob(os.path.join(VERIF, "harness", "*.h")))
+        + sorted(glob.glob(os.path.join(VERIF, "harness", "*.h"))) + sorted(glob.glob(os.path.join(REPO, "tools", "regression", "*.cpp"))) \
+        + sorted(glob.glob(os.path.join(REPO, "tools", "regression", "*.h")))
     for f in files:
         h.update(f.encode()); h.update(open(f, "rb").read())
     h.update(repr(VARIANTS[variant]).encode())
@@ -86,6 +87,22 @@ def build(variant="plain", quiet=True):
         sys.stderr.write("ENGINE BINARY BUILD FAILED\n" + r.stderr[-4000:])
         shutil.rmtree(bdir, ignore_errors=True)
         raise SystemExit(3)
+    # the regression tool (tools/regression/*.cpp + the same engine objects), for the referee conformance runs
+    rsrc = sorted(glob.glob(os.path.join(REPO, "tools", "regression", "*.cpp")))
+    robjs = []
+    def rcomp(src):
+        obj = os.path.join(bdir, "r_" + os.path.basename(src)[:-4] + ".o")
+        r_ = subprocess.run(common + ["-I" + os.path.join(REPO, "tools", "regression"), '-DECO_CODES_FILE="%s"' % os.path.join(REPO, "tools", "regression", "scid.eco"),
+                                       "-c", src, "-o", obj], capture_output=True, text=True)
+        return (obj, r_.returncode, r_.stderr)
+    with ThreadPoolExecutor(max_workers=8) as ex:
+        rres = list(ex.map(rcomp, rsrc))
+    if all(rc == 0 for _, rc, _ in rres):
+        r = subprocess.run([cc, "-pthread"] + lflags + [o for s_, o in jobs if "/engine/" in s_] + [o for o, _, _ in rres] + ["-o", os.path.join(bdir, "regression")], capture_output=True, text=True)
+        if r.returncode != 0:
+            sys.stderr.write("REGRESSION TOOL LINK FAILED (the referee conformance run will report it)\n" + r.stderr[-2000:])
+    else:
+        sys.stderr.write("REGRESSION TOOL BUILD FAILED (the referee conformance run will report it)\n" + "".join(e[-1500:] for _, rc, e in rres if rc != 0))
     try:
         os.rename(bdir, final_bdir)          # atomic publish; a concurrent builder of the same tree may have won
     except OSError:
@@ -94,6 +111,11 @@ def build(variant="plain", quiet=True):
     if not quiet:
         sys.stderr.write("built %s in %.1fs\n" % (exe, time.time() - t0))
     return exe
+
+def regression_exe(variant="plain"):
+    """tools/regression built from the same tree"""
+    return os.path.join(os.path.dirname(build(variant)), "regression")
+
 
 def engine_exe(variant="plain"):
     """the engine's own UCI executable built with the same flags from the same tree"""
